@@ -88,9 +88,9 @@ class Conv:
                 return "true" if k[2] == "1" else "false"
             if k[1] == "double":
                 v = struct.unpack("<d", struct.pack("<Q", int(k[2], 16)))[0]
-                t = "%g" % v                             # default ostream formatting = %g with 6 significant digits
+                t = cpp_shortest(v)                      # print_double: the shortest text that reads back as the same value
                 if not re.fullmatch(r"[0-9]+(\.[0-9]+)?([eE][+-]?[0-9]+)?", t) or float(t) != v or re.fullmatch(r"[0-9]+", t):
-                    self.lossy = True                    # the printed text is not a literal of this double value
+                    self.lossy = True                    # not a literal of the language (negative, inf, nan): cannot come from a parse
                 return "(dbl %s)" % t
             if k[1] == "string":
                 return "(str %s)" % (k[2] if len(k) > 2 else "")
@@ -141,6 +141,33 @@ def kinds_in(k, acc):
         for x in k[1:]:
             kinds_in(x, acc)
     return acc
+
+
+def cpp_shortest(v):
+    """std::to_chars(double) of libstdc++ (shortest digits; fixed or scientific, whichever is shorter; integers >= 2^53 with their exact
+    digits), with the ".0" print_double appends to a text that has neither fraction nor exponent"""
+    from decimal import Decimal
+    if v != v or v in (float("inf"), float("-inf")):
+        return repr(v)
+    if v == 0:
+        return "0.0"
+    sign, digits, exp = Decimal(repr(abs(v))).as_tuple()
+    digits = "".join(map(str, digits)).lstrip("0") or "0"
+    while len(digits) > 1 and digits.endswith("0"):
+        digits, exp = digits[:-1], exp + 1
+    n = len(digits)
+    se = exp + n - 1
+    sci = digits[0] + ("." + digits[1:] if n > 1 else "") + "e" + ("-" if se < 0 else "+") + "%02d" % abs(se)
+    if exp >= 0:
+        fixed = str(int(abs(v)))
+    elif -exp < n:
+        fixed = digits[:n + exp] + "." + digits[n + exp:]
+    else:
+        fixed = "0." + "0" * (-exp - n) + digits
+    t = fixed if len(fixed) <= len(sci) else sci
+    if not any(c in t for c in ".en"):
+        t += ".0"
+    return ("-" if v < 0 else "") + t
 
 
 def text_key(ktree, s1):
@@ -260,6 +287,13 @@ def run(ctx):
             seen.add(key)
             failing.append(t)
     conservative = len(triples) - len(failing)
+    # the exception classes of the pinned tree, none of which has an instance the type checker accepts (the callee of a call, the operand of
+    # `.` or `'` ... must be a name there); a class that is not on this list means the printer lost parentheses somewhere new
+    class_keys = sorted("%s/%s/%s" % (family(t["parent"]), t["pos"], family(t["child"])) for t in failing)
+    base_classes = {l.strip() for l in open(os.path.join(core.VERIF, "corpus", "c03", "exception_classes.txt")) if l.strip() and not l.startswith("#")}
+    new_classes = [k for k in class_keys if k not in base_classes]
+    cov["exception_class_keys"] = class_keys
+    cov["exception_classes_not_on_the_pinned_list"] = new_classes
     wl = ["/- GENERATED by checks/c03.py on every run: for each (parent, position, child) combination of today's tables where the",
           "   printer omits parentheses the grammar needs, the printed witness does NOT parse back to the witness. -/",
           "import UtapModel.Model.PrintModel", "namespace UtapModel.C03W",
@@ -358,8 +392,7 @@ def run(ctx):
         replay = {"entry": "parse_XTA(text, S_EXPRESSION) -> str() -> parse -> equal -> str() in the scope of harness/c02.cpp", "text": c["text"],
                   "tree": c["k"], "str": c["s1"], "reparsed": c["k2"], "equal": c["eq"], "second_str": c["s2"], "accepted_by_typechecker": c["typeok"]}
         if c["lossy"]:
-            # a double constant whose default-precision text is not a literal of the same value: the token-level model cannot
-            # represent the tree; the deviation is the library's (6 significant digits / `3` for 3.0)
+            # a double constant that no literal denotes (it cannot come from a parse): the token-level model cannot represent the tree
             if not impl_ok and c["typeok"]:
                 ctx.finding("literal:double-printed-with-6-digits", "str() of %r is %r: the double constant does not survive" % (c["text"], c["s1"]), replay)
             continue
@@ -389,6 +422,16 @@ def run(ctx):
     # stage QL: the query layer of the Lean model (Model/Query.lean, theorem C03_query_roundtrip) against the real query parser / printer
     qstats["query_layer"] = run_query_layer(ctx, b, drv3, texts, model_bugs)
     # verdict ------------------------------------------------------------------------------------------------------------
+    reported = {v[0] for v in ctx.violations}
+    for k in new_classes:
+        if ("triple:" + k) in reported:
+            continue                # a type-correct instance failed on the library: reported with that input
+        t = [x for x in failing if "%s/%s/%s" % (family(x["parent"]), x["pos"], family(x["child"])) == k][0]
+        ctx.proof_broken("exception-class:triple:" + k,
+                         "the printer model read from expression.cpp omits parentheses the grammar needs in a combination that the pinned tree "
+                         "printed correctly: operand %s (%s) of %s, e.g. `%s` is printed `%s` (C03_partial no longer covers such trees)"
+                         % (t["pos"], t["child"], t["parent"], t["mintext"], t["printed"]),
+                         "%d trees round-tripped on the library; this witness itself is rejected by the type checker" % len(cases))
     if model_bugs:
         ctx.proof_broken("correspondence:printer-model", repr(model_bugs[:3]), "library round trip is fine on those inputs")
     if tie_err and not ctx.violations:
